@@ -335,7 +335,37 @@ Definition run_serde1 (bodies : list N) (op : list N) : list N :=
     else
     match rest with
     | tyi :: fail :: vl =>
-      if (length op <? 5)%nat || negb ((k =? 1) || (k =? 2)) || (10000 <? fail) then [99] else
+      if (length op <? 5)%nat || negb ((k =? 1) || (k =? 2) || (k =? 4)) || (10000 <? fail) then [99] else
+      if k =? 4 then
+        (* deserialize_in_place (serde's default: [*place = Deserialize::deserialize(d)?]) into a handle holding value 1
+           that, for Arc, has a second owner: on success the place is a fresh sole owner and the other owner keeps the
+           old value in the old block; on error nothing changes *)
+        match parse_val 7 vl with
+        | Some (v1, r1) =>
+          match parse_val 7 r1 with
+          | Some (v2, []) =>
+            match ty_of tyi with
+            | None => [98]
+            | Some t =>
+              match deser 0 t v1 (0, []) with
+              | (inr _, _) => [97]
+              | (inl _, _) =>
+                match de_handle (err := derr) (dbody_of (nth (2 + N.to_nat handle) bodies 0)) (inl 0) with
+                | None => [95]
+                | Some _ =>
+                  let shared := handle =? 0 in
+                  match deser fail t v2 (0, []) with
+                  | (inl _, (_, tr)) => [0; 0; 0; 1; 1; 1; (if shared then 1 else 0); 0; 0; SEP] ++ tr
+                  | (inr (code, at_), (_, tr)) => [1; code; at_; 1; 1; (if shared then 2 else 1); (if shared then 2 else 0); (if shared then 1 else 0); 0; SEP] ++ tr
+                  end
+                end
+              end
+            end
+          | _ => [99]
+          end
+        | None => [99]
+        end
+      else
       match parse_val 7 vl with
       | Some (v, []) =>
         match ty_of tyi with
